@@ -204,7 +204,7 @@ def gen_structured_grammar(r, with_transl=True, kind=None):
     if kind == 'err-alts':
         return gen_err_alts(r)
     kind = kind or r.choice(['follow-chain', 'follow-chain', 'shared-alts', 'shared-alts', 'first-chain', 'nullable-prefix', 'nullable-prefix',
-                     'stmt-list', 'stmt-list', 'twice', 'twice', 'recov-race', 'recov-race', 'core-share', 'core-share', 'recov-nest', 'recov-nest', 'passthru-split', 'passthru-split', 'nullable-tail', 'nullable-tail', 'recov-embed'])
+                     'stmt-list', 'stmt-list', 'twice', 'twice', 'recov-race', 'recov-race', 'core-share', 'core-share', 'recov-nest', 'recov-nest', 'passthru-split', 'passthru-split', 'nullable-tail', 'nullable-tail', 'recov-embed', 'null-chain', 'null-chain', 'recov-cache'])
     inputs_fn = None
     tn = ['a', 'b', 'c', 'd', 'e']
     terms = gen_terms(r, 5)
@@ -335,6 +335,49 @@ def gen_structured_grammar(r, with_transl=True, kind=None):
             d = r.randint(1, 5)
             t = [lp] * d + r.choice([[a], [a, a], [a, b], [], [b]]) + [rp] * r.randint(0, d + 1)
             return t[:14]
+    elif kind == 'null-chain':
+        # nullability has to travel up a chain of nonterminals that each also have a deriving
+        # alternative (so that becoming nullable is the only change of a late fixpoint pass);
+        # written top-down, bottom-up or shuffled; the sentence needs the top of the chain to vanish
+        k = r.randint(3, 5)
+        ch = ['X%d' % i for i in range(k)]
+        t = tn[:3]
+        rules = [('S', r.choice([[ch[0], t[0]], [ch[0]], [t[0], ch[0], t[1]], [ch[0], ch[0], t[0]]]))]
+        links = []
+        for i, x in enumerate(ch):
+            links.append((x, [r.choice(t)]))
+            nxt = [ch[i + 1]] if i + 1 < k else []
+            links.append((x, nxt if r.random() < 0.7 or not nxt else nxt + nxt))
+        o = r.random()
+        if o < 0.3: links = links[::-1]
+        elif o < 0.5: r.shuffle(links)
+        rules += links
+        top = rules[0][1]
+        def inputs_fn(r, tn, top=top):
+            w = [x for x in top if not x.startswith('X')]
+            return w if r.random() < 0.6 else mutate(r, w + [r.choice(tn)], tn)
+    elif kind == 'recov-cache':
+        # statements that share a middle constituent and differ in head and tail; a statement with
+        # the wrong tail is a syntax error whose recovery goes back a few sets and re-grows the
+        # list to its old length; the same statements repeated afterwards reach the same
+        # (set, token, lookahead) triples as before the error (goto sets cached before a
+        # recovery must not be reused on the rewritten list)
+        terms = gen_terms(r, 8)
+        a, b, z, c, d, x, y, sep = [n for n, _ in terms]
+        rules = [('P', ['P', sep, 'L']), ('P', ['L']), ('L', ['L', 'S']), ('L', ['S']), ('L', ['error']),
+                 ('S', [a, 'A']), ('S', [b, 'B']), ('S', [z]), ('A', ['R', c]), ('B', ['R', d]), ('R', [x, y])]
+        if r.random() < 0.3: rules.append(('R', [x, y, y]))
+        if r.random() < 0.3: rules[4] = ('L', ['error', sep])
+        if r.random() < 0.3: rules.append(('S', ['error', c]))
+        good = [[a, x, y, c], [b, x, y, d], [z]]
+        bad = [[b, x, y, c], [a, x, y, d], [a, x, c], [b, y, d]]
+        def inputs_fn(r, tn):
+            t = []
+            for _ in range(r.randint(0, 2)): t += r.choice(good)
+            t += r.choice(bad)
+            rep = r.choice(good[:2])
+            for _ in range(r.randint(1, 3)): t += rep if r.random() < 0.8 else r.choice(good)
+            return t[:16]
     elif kind == 'core-share':
         # one set core (same start situations in the same order) reached with different distance
         # vectors: `A : X . E F b` and `A : X E . F b` (E, F nullable) stand in one set first with
@@ -529,8 +572,8 @@ def gen_grammar0(r, nnt=None, nt_=None, err_prob=0.25, maxrules=3, strict=None, 
         if err_prob >= 0.3 and with_transl and r.random() < 0.08:
             g = gen_err_alts(r)
             if g is not None: return g
-        if err_prob >= 0.5 and r.random() < 0.12:
-            g = gen_structured_grammar(r, with_transl, kind=r.choice(['recov-nest', 'recov-nest', 'recov-race', 'recov-embed']))
+        if err_prob >= 0.34 and r.random() < (0.12 if err_prob >= 0.5 else 0.06):
+            g = gen_structured_grammar(r, with_transl, kind=r.choice(['recov-nest', 'recov-nest', 'recov-race', 'recov-embed', 'recov-cache']))
             if g is not None: return g
         if err_prob >= 0.5 and r.random() < 0.15:
             g = gen_classic_grammar(r, with_transl, err=True)
@@ -723,7 +766,8 @@ def cfg_sweep(r, focus):
     if focus == 'C03':
         return [dict(la=la, one=0, cost=0, rec=0) for la in r.sample([0, 1, 2], 2)]
     if focus == 'C04':
-        return [dict(la=r.choice([0, 1, 2]), one=o, cost=1, rec=0, free=f) for o in (0, 1) for f in r.sample(['user', 'null'], 1)]
+        return [dict(la=r.choice([0, 1, 2]), one=o, cost=1, rec=0, free=f) for o in (0, 1) for f in r.sample(['user', 'null'], 1)] + \
+               ([dict(la=r.choice([0, 1, 2]), one=r.choice([0, 1]), cost=1, rec=1, free=r.choice(['user', 'null']))] if r.random() < 0.4 else [])
     if focus == 'C05':
         return [dict(la=r.choice([0, 1, 2]), one=o, cost=r.choice([0, 1]), rec=0) for o in (0, 1)]
     if focus == 'C06':
@@ -742,16 +786,23 @@ def cfg_sweep(r, focus):
     return [dict(la=r.choice([0, 1, 2]), one=one, cost=cost, rec=0)]
 
 
-def gen_parse_cases(seed, count, focus='C01', maxlen=7, inputs_per=3):
+def gen_parse_cases(seed, count, focus='C01', maxlen=7, inputs_per=3, kind=None, force=None):
+    """`kind`: only grammars of that structured family; `force`: settings fixed in every sweep"""
     r = random.Random(seed)
     cases = []
     for i in range(count):
-        g = gen_grammar(r, err_prob=0.6 if focus in ('C06', 'C07', 'C08') else 0.35 if focus in ('C09', 'C13') else 0.15)
+        g = None
+        if kind is not None:
+            for _ in range(30):
+                g = gen_structured_grammar(r, True, kind=kind)
+                if g is not None: break
+        if g is None:
+            g = gen_grammar(r, err_prob=0.6 if focus in ('C06', 'C07', 'C08') else 0.35 if focus in ('C09', 'C13', 'C04') else 0.15)
         ins = gen_inputs(r, g, inputs_per, maxlen)
         # every input gets its own sweep
         lines = None
         allops = []
-        c = ['case %s-%d-%d parse' % (focus, seed, i)] + g.text(0)
+        c = ['case %s%s-%d-%d parse' % (focus, ('.' + kind) if kind else '', seed, i)] + g.text(0)
         n = 0
         def op(s):
             nonlocal n
@@ -765,6 +816,7 @@ def gen_parse_cases(seed, count, focus='C01', maxlen=7, inputs_per=3):
         for toks in ins:
             codes = ' '.join(str(g.code(t)) for t in toks)
             for cfg in cfg_sweep(r, focus):
+                if force: cfg = dict(cfg, **force)
                 for k in ('la', 'one', 'cost', 'rec', 'match', 'debug'):
                     if k in cfg and cfg[k] != cur[k]:
                         op('set 0 %s %d' % (k, cfg[k]))
@@ -902,12 +954,33 @@ def gen_loop_def(r):
     return Grammar(terms, rules, r.random() < 0.5)
 
 
+def gen_access_def(r):
+    """nonterminals that are reachable only through rule positions next to (before / after) a
+    nonterminal deriving nothing, or only from rules of such a nonterminal; symbol numbering and
+    rule order varied (the fixpoints of set_empty_access_derives visit symbols in numbering order)"""
+    terms = [('a', 97), ('b', 98)]
+    rules = [('S', ['a'])]
+    pre = r.random() < 0.6          # X is numbered before N
+    xs = ['X', 'Y'][:r.randint(1, 2)]
+    body = [('S', r.choice([['N'] + xs, xs[:1] + ['N'] + xs[1:], ['N', 'a'] + xs, ['a', 'N'] + xs]))]
+    body += [('N', r.choice([['N', 'a'], ['a', 'N'], ['N'], ['M', 'a']]))]
+    if ('N', ['M', 'a']) in body: body.append(('M', ['N']))
+    xr = [(x, r.choice([['b'], [], ['a', 'b'], ['Z']])) for x in xs]
+    if any(rh == ['Z'] for _, rh in xr): xr.append(('Z', ['b']))
+    if r.random() < 0.3: xr.append((xs[0], ['N', 'b']))
+    rules = rules + (xr + body if pre else body + xr)
+    if r.random() < 0.3: r.shuffle(rules)
+    if r.random() < 0.2: rules.append(('U', ['a']))         # a really unreachable one as well
+    out = [(l, None, 0, rh, None) for l, rh in rules]
+    return Grammar(terms, out, r.random() < 0.8)
+
+
 def gen_def_cases(seed, count):
     r = random.Random(seed)
     cases = []
     for i in range(count):
         z = r.random()
-        g = gen_chain_def(r) if z < 0.25 else gen_loop_def(r) if z < 0.45 else gen_def_grammar(r)
+        g = gen_chain_def(r) if z < 0.22 else gen_loop_def(r) if z < 0.40 else gen_access_def(r) if z < 0.5 else gen_def_grammar(r)
         c = ['case C10-%d-%d def' % (seed, i)] + g.text(0)
         c += ['op 1 create 0', 'op 2 def 0 0', 'op 3 err 0', 'op 4 set 0 rec 0', 'op 5 parse 0 user user 1', 'op 6 err 0', 'op 7 free 0', 'end']
         cases.append(c)
